@@ -5,6 +5,7 @@ import Bgpfu.Drive.Daemon
 import Bgpfu.Drive.Writers
 import Bgpfu.Drive.Policy
 import Bgpfu.Drive.Builders
+import Bgpfu.Drive.LogTable
 /-! `modeld`: one request per line on stdin, one answer per line on stdout.
 A line is `<op> <arg>…` separated by single spaces; unknown ops / malformed args answer `bad-op`. -/
 
@@ -18,6 +19,7 @@ def dispatch (ws : List String) : String :=
     | "ser" :: rest => Writers.drive rest
     | "plan" :: rest => Policy.drive rest
     | "build" :: rest => Builders.drive rest
+    | "logs" :: rest => LogTable.drive rest
     | _ => none
   r.getD "bad-op"
 
